@@ -13,6 +13,8 @@
 (define-fun go_mod ((a Int) (b Int)) Int
   (ite (>= a 0) (mod a b) (- (mod (- a) b))))
 (define-fun itoa ((i Int)) String (ite (>= i 0) (str.from_int i) (str.++ "-" (str.from_int (- i)))))
+; textual form of a socket address as printed by net.Addr.String: always resolvable again
+(declare-fun isSockAddr (String) Bool)
 ;@ghost W (Array Int String)
 ;@ghost now Int
 ;@ghost held (Array Int Bool)
